@@ -23,6 +23,13 @@ pub fn judge(trace: &Trace) -> Verdict {
         Err(_) => {
             let msg = crate::take_panic_message();
             let tick = crate::exec::CURRENT_TICK.with(|c| c.get());
+            if crate::is_harness_panic(&msg) {
+                return Verdict {
+                    failures: Vec::new(),
+                    panic: Some(msg.clone()),
+                    harness_error: Some(format!("harness panicked: {msg}")),
+                };
+            }
             Verdict {
                 failures: vec![Failure {
                     props: &["C03"],
@@ -43,7 +50,7 @@ pub fn has_target(v: &Verdict, prop: &str, check: &str) -> Option<usize> {
     }
     v.failures
         .iter()
-        .find(|f| f.check == check && f.props.contains(&prop))
+        .find(|f| f.check == check && crate::prop_matches(f.props, prop))
         .map(|f| f.tick)
 }
 
